@@ -204,6 +204,12 @@ def ite_val(c, a, b):
             elif z3.is_real(la) and z3.is_int(lb):
                 lb = z3.ToReal(lb)
         return z3.If(c, la, lb)
+    if isinstance(a, TRef) and isinstance(b, TRef):
+        return TRef(z3.If(c, a.ref, b.ref))
+    if a is None and b is None:
+        return None
+    if isinstance(a, Opt) and isinstance(b, Opt):
+        return Opt(z3.If(c, lift(a.is_none), lift(b.is_none)), ite_val(c, a.value, b.value))
     if hasattr(a, "ite") and type(a) is type(b):
         return a.ite(c, b)
     raise Unsupported(f"ite over {type(a).__name__}/{type(b).__name__}")
